@@ -312,6 +312,10 @@ func (mp *Pool) Add(t *transaction.Transaction, fee Feer, data ...any) error {
 	if len(mp.verifiedTxes) == mp.capacity {
 		// Less prioritized than the least prioritized we already have, won't fit.
 		if n == len(mp.verifiedTxes) {
+			if attrs := t.GetAttributes(transaction.OracleResponseT); len(attrs) != 0 {
+				// Not pooled, so the ID recorded above must not stay.
+				delete(mp.oracleResp, attrs[0].Value.(*transaction.OracleResponse).ID)
+			}
 			mp.lock.Unlock()
 			return ErrOOM
 		}
